@@ -170,7 +170,8 @@ def m2(ctx, al, module, cfg, maxlen, maxmem):
                     err, out = obs
                     ctx.count(1, nontrivial_key=(case_key(case), n) if n >= 2 else None)
                     ok = (err == st["err"]) and same(out, st["out"], ns)
-                    if memroute == "callable" and case["mem"] != "none" and err == "none" and ASKED != [lm_of(case)]:
+                    if memroute == "callable" and case["mem"] != "none" and err == "none" and ASKED != [lm_of(case)] \
+                            and not (lm_of(case) == 0 and ASKED == []):        # Filter.tla MemAskedOK
                         ctx.violation("C04:memory:callable-size",
                                       {"case": case_key(case), "n": n, "route": route, "asked": list(ASKED),
                                        "needed": lm_of(case)})
